@@ -53,6 +53,8 @@ struct Config {
 }
 
 struct Job {
+    /// replay of an extra-attack witness: (target instance, out-of-domain family)
+    replay_target: Option<(Vec<midnight_curves::Fq>, bool)>,
     idx: usize,
     key: String,
     entry: Entry,
@@ -73,6 +75,10 @@ struct JobOut {
 
 fn run_job(job: &Job, seed: u64, proto: &Report) -> JobOut {
     let run_all = |part: &mut Report| {
+        if let Some((target, ood)) = &job.replay_target {
+            let ex = attacks::replay_extra(&job.entry, &job.inputs[0], target, *ood, job.opts.max_bit_len, job.deep, seed, part);
+            return (OpStats::default(), ex);
+        }
         let inputs = attacks::preflight(&job.entry, &job.inputs, job.opts.max_bit_len, part);
         let st = check_op(&job.entry, &inputs, &job.opts, seed, part);
         let ex = run_extra(&job.entry, &inputs, job.opts.max_bit_len, job.deep, seed, part);
@@ -101,6 +107,7 @@ fn main() {
     let mut ctx = Ctx::from_args("C04");
     // --replay <file>: re-run exactly the recorded (operation, input)
     let mut replay: Option<(String, Option<Vec<V>>)> = None;
+    let mut replay_target: Option<(Vec<midnight_curves::Fq>, bool)> = None;
     if let Some(path) = ctx.replay.clone() {
         match load_replay(&path) {
             Some(j) => {
@@ -113,6 +120,12 @@ fn main() {
                 let w = &j["witness"];
                 let op = w["op"].as_str().unwrap_or("").to_string();
                 let input = w["input"].as_str().or(w["base_input"].as_str()).and_then(V::parse_list);
+                if let Some(acc) = w["accepted_instance"].as_array() {
+                    let t: Option<Vec<midnight_curves::Fq>> =
+                        acc.iter().map(|h| h.as_str().and_then(|h| V::parse(&format!("N:{h}"))).map(|v| v.n())).collect();
+                    let ood = j["signature"].as_str().map(|s| s.ends_with("accepts-out-of-domain-input")).unwrap_or(false);
+                    replay_target = t.map(|t| (t, ood));
+                }
                 replay = Some((op, input));
             }
             None => {
@@ -185,6 +198,7 @@ fn main() {
             per_trait.entry(kind.trait_name()).or_default().insert(label.clone());
             let weight = entry_weight(&entry, &inputs);
             jobs.push(Job {
+                replay_target: replay_target.clone(),
                 idx: jobs.len(),
                 key: format!("{label} @mbl={},cols={}", cfg.max_bit_len, cfg.cols),
                 entry,
